@@ -176,7 +176,8 @@ func registerModels(e *Engine) {
 		if st.log != nil {
 			st.log.lockEvent(st, p, true)
 		}
-		st.hset(sp.obj, navSet(st.hget(sp.obj), sp.path, ConstBV(cur.(*Term).s.W, 1)))
+		// the mutex word itself is not an ordinary memory access
+		st.heap.set(sp.obj, navSet(st.hget(sp.obj), sp.path, ConstBV(cur.(*Term).s.W, 1)))
 		return nil
 	}
 	ic["(*sync.Mutex).Unlock"] = func(e *Engine, st *State, fr *Frame, in ssa.CallInstruction, a []Val) Val {
@@ -186,7 +187,7 @@ func registerModels(e *Engine) {
 		if t, ok := cur.(*Term); ok && t.IsConst() && t.c == 0 {
 			abort("panic", "sync: unlock of unlocked mutex")
 		}
-		st.hset(sp.obj, navSet(st.hget(sp.obj), sp.path, ConstBV(cur.(*Term).s.W, 0)))
+		st.heap.set(sp.obj, navSet(st.hget(sp.obj), sp.path, ConstBV(cur.(*Term).s.W, 0)))
 		if st.log != nil {
 			st.log.lockEvent(st, p, false)
 		}
